@@ -12,6 +12,7 @@ CONSTANTS
   DDVft = {"no", "yes", "flat"}
   B1Names = {"b1", "_b1"}
   SameName = FALSE
+  XdNames = {"xd", "vftable"}
   Ptrs = {4, 8}
   Lead = {FALSE, TRUE}
   EmptyBlocks = {FALSE, TRUE}
